@@ -9,15 +9,7 @@ import (
 	"fmt"
 	"strings"
 
-	"github.com/gopacket/gopacket"
-
-	"github.com/scionproto/scion/pkg/addr"
-	"github.com/scionproto/scion/pkg/slayers"
-	"github.com/scionproto/scion/pkg/slayers/path"
-	"github.com/scionproto/scion/pkg/slayers/path/empty"
 	"github.com/scionproto/scion/pkg/slayers/path/epic"
-	"github.com/scionproto/scion/pkg/slayers/path/onehop"
-	"github.com/scionproto/scion/pkg/slayers/path/scion"
 
 	"verifharness/vlib"
 	"verifharness/wiregen"
